@@ -227,6 +227,85 @@ func runThorough(prog *Program, id string, base *PropertyResult, opts RunOptions
 			add("T3", "seeded variant "+r.Name, UNDECIDED, "the variant could not be analysed: %s", r.Detail)
 		}
 	}
+	// 4. behaviour-preserving refactorings: none may raise an alarm (the other direction of T3)
+	benign, _ := filepath.Glob(filepath.Join(opts.VerifDir, "selftest", "benign", "*.diff"))
+	sort.Strings(benign)
+	type benRes struct {
+		Name   string   `json:"name"`
+		Status string   `json:"status"` // silent | alarms | skipped | error
+		Alarms []string `json:"alarms,omitempty"`
+		Detail string   `json:"detail,omitempty"`
+	}
+	bres := make([]benRes, len(benign))
+	refFail := map[string]int{} // failing obligations per rule on the reference tree
+	for _, o := range base.Obls {
+		if o.Verdict != OK {
+			refFail[o.Rule]++
+		}
+	}
+	var wg4 sync.WaitGroup
+	for i, patch := range benign {
+		wg4.Add(1)
+		go func(i int, patch string) {
+			defer wg4.Done()
+			sem <- struct{}{}
+			defer func() { <-sem }()
+			r := benRes{Name: strings.TrimSuffix(filepath.Base(patch), ".diff")}
+			scratch, err := scratchCopy(prog.Cfg.Dir)
+			if err != nil {
+				r.Status, r.Detail = "error", err.Error()
+				bres[i] = r
+				return
+			}
+			defer os.RemoveAll(scratch)
+			if out, err := exec.Command("git", "-C", scratch, "apply", "--whitespace=nowarn", patch).CombinedOutput(); err != nil {
+				r.Status, r.Detail = "skipped", "written against an earlier commit: "+clip(string(out), 120)
+				bres[i] = r
+				return
+			}
+			obls, err := runChild(opts.VerifDir, LoadConfig{Dir: scratch, Toolchain: "local"}, id)
+			if err != nil {
+				r.Status, r.Detail = "error", clip(err.Error(), 300)
+				bres[i] = r
+				return
+			}
+			got := map[string]int{}
+			for _, o := range obls {
+				if o.Verdict != OK {
+					got[o.Rule]++
+					if got[o.Rule] > refFail[o.Rule] {
+						r.Alarms = append(r.Alarms, o.Rule+" :: "+o.Construct)
+					}
+				}
+			}
+			sort.Strings(r.Alarms)
+			if len(r.Alarms) == 0 {
+				r.Status = "silent"
+			} else {
+				r.Status = "alarms"
+			}
+			bres[i] = r
+		}(i, patch)
+	}
+	wg4.Wait()
+	nSilent, nBenSkip := 0, 0
+	for _, r := range bres {
+		switch r.Status {
+		case "silent":
+			nSilent++
+			add("T4", "refactoring "+r.Name+" raises no alarm", OK, "the behaviour-preserving refactoring selftest/benign/%s.diff applied to a scratch copy: no obligation of %s fails that holds on the reference tree", r.Name, id)
+		case "skipped":
+			nBenSkip++
+		case "alarms":
+			add("T4", "refactoring "+r.Name+" raises no alarm", UNDECIDED, "a behaviour-preserving refactoring makes rules of this property fail: %v - the rule matches the shape of today's code, not the mechanism (a false alarm in waiting)", r.Alarms)
+		default:
+			add("T4", "refactoring "+r.Name+" raises no alarm", UNDECIDED, "the refactored tree could not be analysed: %s", r.Detail)
+		}
+	}
+	res.Coverage["refactorings_run"] = len(bres) - nBenSkip
+	res.Coverage["refactorings_silent"] = nSilent
+	res.Coverage["refactorings_skipped"] = nBenSkip
+	res.Coverage["refactorings"] = bres
 	res.Coverage["variants_run"] = len(results) - nSkip
 	res.Coverage["variants_detected"] = nDet
 	res.Coverage["variants_skipped"] = nSkip
